@@ -6,6 +6,8 @@
 //	seq    request histories (secret-rotation counters of token.TokenParser), explicit-state,
 //	cs     signed requests x single-field mutations against strict ContentSecurityHandler,
 //	crypt  payload round trips through CryptionHandler,
+//	script handler scripts over {Write, Flush, WriteHeader} behind CryptionHandler / ContentSecurityHandler,
+//	hist   time histories (tokens presented repeatedly, virtual clock jumps) on one Authorize instance,
 //
 // each judged by an independent verifier written from the property statement (jwt.go: verifyToken,
 // cs.go: csOracle, keys.go: own RSA/AES). See NOTES.md.
@@ -393,6 +395,20 @@ func replay(cfg *vlib.Config) {
 	case "crypt":
 		p = checkCrypt(*rc.Crypt)
 		fmt.Printf("replay crypt: %s\n", rc.Crypt.String())
+	case "script":
+		p = checkScript(*rc.Script)
+		fmt.Printf("replay handler script: %s\n", rc.Script.String())
+	case "hist":
+		var steps []histStep
+		steps, p = runHist(rc.Hist.Cfg, rc.Hist.Ops)
+		fmt.Printf("replay time history on one Authorize instance (T = %d):\n", jwtNow)
+		for _, st := range steps {
+			if st.Jump {
+				fmt.Printf("  clock %-5s -> now = T%+ds\n", st.Op, st.Now-jwtNow)
+			} else {
+				fmt.Printf("  token %-5s at T%+ds: expected %s (%s), observed ran=%v status=%d\n", st.Op, st.Now-jwtNow, verdictName(st.Verdict), st.Reason, st.Ran, st.Status)
+			}
+		}
 	default:
 		vlib.Fatal("unknown replay family %q", rc.Family)
 	}
@@ -417,6 +433,9 @@ func main() {
 	}
 	r := vlib.NewReport(cfg)
 	thorough := cfg.Thorough()
+	if cfg.Shard != "" {
+		runHistFamily(r, thorough) // worker process of the time-history family: runs its shard and exits
+	}
 
 	phase := map[string]string{}
 	timed := func(name string, f func()) {
@@ -427,26 +446,31 @@ func main() {
 	// soft time box: 75 s quick / 13 min thorough, split over the families so that a slow machine
 	// truncates every family's tail instead of dropping the later families altogether
 	if cfg.BudgetS == 0 {
-		cfg.BudgetS = 75
+		cfg.BudgetS = 100
 		if thorough {
-			cfg.BudgetS = 780
+			cfg.BudgetS = 1080
 		}
 	}
 	at := func(frac float64) time.Time {
 		return cfg.Start.Add(time.Duration(frac * float64(cfg.BudgetS) * float64(time.Second)))
 	}
 	jj := jwtJobs(thorough)
-	timed("jwt", func() { runJobs(r, jj, at(0.45)) })
-	timed("seq", func() { runSeqFamily(r, thorough, at(0.55)) })
+	timed("jwt", func() { runJobs(r, jj, at(0.35)) })
+	timed("seq", func() { runSeqFamily(r, thorough, at(0.42)) })
 	cj := csJobs(thorough)
-	timed("cs", func() { runJobs(r, cj, at(0.95)) })
+	timed("cs", func() { runJobs(r, cj, at(0.72)) })
 	kj := cryptJobs(thorough)
-	timed("crypt", func() { runJobs(r, kj, at(1.0)) })
+	timed("crypt", func() { runJobs(r, kj, at(0.75)) })
+	sj := scriptJobs(thorough)
+	timed("script", func() { runJobs(r, sj, at(0.80)) })
+	// last: the shards of the time-history family get whatever is left of the budget
+	timed("hist", func() { runHistFamily(r, thorough) })
 	fmt.Println("phase wall times:", phase)
 
 	r.Scenario("families", map[string]any{
 		"jwt_jobs (bases + mutated bases)": len(jj), "cs_jobs (bases)": len(cj), "crypt_jobs (chunks of 64)": len(kj),
 		"jwt_base_requests": len(allJWTBases(jwtCfgs)), "cs_base_requests": len(csBases(thorough)), "crypt_cases": len(cryptCases(thorough)),
+		"handler_scripts": len(allScripts(thorough)), "script_cases (routes x scripts)": len(scriptCases(thorough)), "time_history_shards": len(histShardNames(thorough)),
 	})
 	b := mkBase(jwtCfgs[0], "s", "HS256", 2, [3]int{3, 1, 1})
 	sizes := map[string]int{}
@@ -460,12 +484,15 @@ func main() {
 	r.Sample(map[string]any{"family": "jwt", "base": b.name(), "header": b.Hdr, "payload": b.Pay, "authorization": "Bearer " + b.Tok})
 	r.Sample(map[string]any{"family": "jwt", "mutation": "alg=none/sig-empty", "authorization": "Bearer " + b64u([]byte(stdHeader("none"))) + "." + b.p + "."})
 	r.Sample(map[string]any{"family": "seq", "history": "SSPXEJ", "meaning": "S/P valid by secret/prev, X bad signature, E expired, J clock jump past reset"})
+	r.Sample(map[string]any{"family": "hist", "history": []string{"a", "+1s", "a", "b", "+25h", "q"}, "meaning": "a: exp=T+1, b: nbf=T+1 exp=T+2, q: by prevSecret nbf=T+1; x~ / x^ tampered copies; +1s / +25h virtual clock jumps; every request judged at the current virtual time"})
+	r.Sample(map[string]any{"family": "script", "case": scriptCase{Route: "cs", Type: "1", ReqLen: 5, Script: []string{"w5", "f", "w16"}}})
 	r.Sample(map[string]any{"family": "cs", "case": csCase{Base: csBases(thorough)[0], Mut: csMut{Kind: "ts-signed", I: 2}}})
 	r.Sample(map[string]any{"family": "crypt", "case": cryptCases(thorough)[40]})
 	r.Assume("base64url signature decoding is the lenient RFC 4648 one (unused trailing bits ignored): a token whose last signature character differs only in those bits carries the same signature bytes and is treated as the same credential by the oracle")
 	r.Assume("iat in the future, Authorization shapes other than exactly 'Bearer <token>', X-Content-Security type values other than 0/1 and signed-but-undecryptable bodies are not pinned (either outcome allowed); safety (no run without a valid credential) is demanded for all of them")
 	r.Assume("VerifySignature reads the wall clock: each content-security case is built relative to the current unix second and re-run if the second changed while it was served")
-	r.Assume("clock jumps for TokenParser are modelled at parser level by constructing a parser with the same counters and an aged resetTime (white-box); the parser inside handler.Authorize is only driven through its counters")
-	r.SetRule("case = (configuration, wire-level request): JWT = base request (cfg x signer x alg x claim set x exp/nbf/iat in {absent,now-1,now,now+1}) or one single-field mutation of it (complete lists in jwt.go: alg/typ/header substitutions x signature candidates, every bit flip of header/payload/signature, every truncation, re-signing with 20 wrong/confusable keys, segment counts, bad base64, Authorization shapes); seq = every request history over the op alphabet up to the depth bound; cs = base signed request x one mutation (timestamp window edges, method, target, every body bit, every signature character, fingerprint, ciphertext bytes, type, missing attributes); crypt = key size x payload length x pattern x handler mode. Every case reaches the gate under test and is judged by the independent verifier; distinct = distinct wire requests (jwt), distinct parser states or paths (seq), distinct descriptors (cs, crypt).")
+	r.Assume("clock: jwt.TimeFunc, timex.Now (rewritten core/timex/relativetime.go) and time.Now inside the rewritten rest/token package read one process-global virtual clock that only the clock-jump operations of the time-history family move (worker processes, one history at a time); real time is not virtualised, so anything kept on a real-time TTL outlives every history. The parser-level rotation search still models its jump by constructing a parser with the same counters and an aged resetTime (white-box)")
+	r.Assume("handler scripts: the status is bracketed (net/http first-commit semantics, or the code of the script's first WriteHeader - a buffering middleware may let a WriteHeader that follows a buffered Write through); a response without any written byte may be empty or decrypt to nothing")
+	r.SetRule("case = (configuration, wire-level request): JWT = base request (cfg x signer x alg x claim set x exp/nbf/iat in {absent,now-1,now,now+1}) or one single-field mutation of it (complete lists in jwt.go: alg/typ/header substitutions x signature candidates, every bit flip of header/payload/signature, every truncation, re-signing with 20 wrong/confusable keys, segment counts, bad base64, Authorization shapes); seq = every request history over the op alphabet up to the depth bound; cs = base signed request x one mutation (timestamp window edges, method, target, every body bit, every signature character, fingerprint, ciphertext bytes, type, missing attributes); crypt = key size x payload length x pattern x handler mode; hist = every history (full tree, no merging) over {5 tokens with exp/nbf just ahead x (genuine, signature bit flipped, time claims edited under the old signature), clock +1s, clock +25h} on one live Authorize instance up to the length bound, each request judged at the current virtual time; script = route (CryptionHandler x key size x request length, content security type 1 / type 0 / no body) x every handler script over {Write 5/16/0(/33) bytes, Flush, WriteHeader 201/404} up to length 3 (4 thorough), the client decrypting the whole response body as one message. Every case reaches the gate under test and is judged by the independent verifier; distinct = distinct wire requests (jwt), distinct parser states or paths (seq), distinct histories (hist), distinct descriptors (cs, crypt, script).")
 	r.Finish()
 }
